@@ -432,14 +432,19 @@ def _compile(ctx, model):
     # data flow of the evaluated text (semantic, not textual)
     evals = []
     for ps in summarize(fn, node_param=False):
+        # attributes stored earlier on the path read back as the stored value
+        stored = {e.name: e.value for e in ps.events if e.kind == "attrwrite"
+                  and e.arg == ("selfobj",)}
         for e in ps.events:
             if e.kind == "call" and e.name == "eval" and e.args:
-                evals.append(e.args)
+                evals.append((e.args, stored))
     if not evals:
         raise AnalysisError("_compile: eval(...) of the generated text not found")
     listed_first = excl_listed = excl_ctx = lam = src_ok = True
-    for args in evals:
+    for args, stored in evals:
         text = args[0]
+        listed_vals = (("self", "_Variables"), stored.get("_Variables"))
+        expr_vals = (("self", "_Expression"), stored.get("_Expression"))
         from ..rules import text_parts
         tp = text_parts(text)
         if tp is None or len(tp) != 4 or tp[0][0] != "const" or \
@@ -460,12 +465,15 @@ def _compile(ctx, model):
         else:
             lam = False
         if allv is not None:
-            listed = ("self", "_Variables")
-            if not (allv[0] == "binop" and allv[1] == "Add" and allv[2] == listed):
+            if not (allv[0] == "binop" and allv[1] == "Add"
+                    and allv[2] in listed_vals):
                 listed_first = False
             rest = allv[3] if allv[0] == "binop" else allv
             if not contains(rest, lambda t: t[0] == "binop" and t[1] == "Sub"
-                            and t[3] in (("call", "set", (listed,), ()), listed)):
+                            and any(t[3] in (("call", "set", (lv,), ()), lv)
+                                    or (t[3][0] == "seq" and lv[0] == "seq"
+                                        and t[3][2:] == lv[2:])
+                                    for lv in listed_vals if lv is not None)):
                 excl_listed = False
             if not contains(rest, lambda t: t[0] == "binop" and t[1] == "Sub"
                             and t[3][0] == "seq" and t[3][2][0] == "call"
@@ -475,8 +483,9 @@ def _compile(ctx, model):
                                 "context" in str(u[1])))):
                 excl_ctx = False
         if not (body[0] == "call" and len(body) >= 5 and body[4] == (
-                "call", "CompileMapper", (), ()) and body[2] == (
-                ("self", "_Expression"), ("global", "PREC_NONE"))):
+                "call", "CompileMapper", (), ()) and len(body[2]) == 2
+                and body[2][0] in expr_vals and body[2][0] is not None
+                and body[2][1] == ("global", "PREC_NONE")):
             src_ok = False
     ctx.ob("P/compile/listed-variables-first", listed_first, loc,
            "listed variables, then the remaining free variables" if listed_first
